@@ -11,14 +11,16 @@ Modes == {"-", "extend", "zero", "expired", "err", "disc", "past"}
 
 SimNext ==
   IF closing # <<>> THEN CloseRun /\ w' = 0
-  ELSE IF status = "closed" THEN FALSE          \* the behaviour ends with the connection
+  ELSE IF status = "closed" /\ ~run THEN FALSE          \* the behaviour ends with the connection
   ELSE
-  \/ \E s \in (IF status = "connecting" THEN 1..1 ELSE IF tmr.op = "expire" /\ now < tmr.at THEN 1..8 ELSE 1..3) : Tick /\ w' = s
+  \/ \E s \in (IF status = "connecting" \/ run THEN 1..1 ELSE IF tmr.op = "expire" /\ now < tmr.at THEN 1..8 ELSE 1..3) : Tick /\ w' = s
   \/ \E s \in 1..8 : Connect("ok") /\ w' = s
-  \/ Connect("err") /\ w' = 0
+  \/ \E s \in 1..2, m \in {"err", "sserr"} : Connect(m) /\ w' = s
   \/ \E s \in 1..3 : Subscribe /\ w' = s
   \/ \E s \in 1..2 : Pong /\ w' = s
-  \/ \E s \in (IF tmr.op = "stale" THEN 1..1 ELSE IF tmr.op = "expire" THEN 1..6 ELSE 1..2), m \in Modes : TimerFire(m) /\ w' = s
+  \/ \E s \in (IF tmr.op = "stale" /\ ~unusable THEN 1..1 ELSE IF tmr.op = "expire" THEN 1..6 ELSE 1..2) : TimerFire /\ w' = s
+  \* a dequeued callback usually runs at once; sometimes something gets in between
+  \/ \E s \in 1..8, m \in Modes : TimerRun(m) /\ w' = s
   \/ \E m \in Modes : (ClientRefresh(m) \/ ServerRefresh(m) \/ SubRefresh(m)) /\ w' = 0
 
 SimSpec == Init /\ w = 0 /\ [][SimNext]_simvars
